@@ -27,6 +27,7 @@ from gapic.utils.filename import to_valid_module_name
 from gapic.utils.lines import sort_lines
 from gapic.utils.lines import wrap
 from gapic.utils.options import Options
+from gapic.utils.reserved_names import IMPORTED_MODULE_NAMES
 from gapic.utils.reserved_names import RESERVED_NAMES
 from gapic.utils.rst import rst
 from gapic.utils.uri_conv import convert_uri_fieldnames
@@ -43,6 +44,7 @@ __all__ = (
     "nth",
     "Options",
     "partition",
+    "IMPORTED_MODULE_NAMES",
     "RESERVED_NAMES",
     "rst",
     "sort_lines",
